@@ -421,6 +421,9 @@ def extra_programs():
         out.append((f'group-by-implicit:{cname}', select([(c, None), cnt], from_='h'), [cname]))
         out.append((f'group-by-coalesce:{cname}', select([cnt], from_='h', group_by=A.GroupBy([F('coalesce', col(cname), col(cname))], None)), [cname]))
         out.append((f'distinct:{cname}', select([(c, None)], from_='h', distinct=True), [cname]))
+        # a NULL literal among the arguments of COALESCE: rejected, or accepted with an announced type the values honour
+        for pos, args in (('first', [C(None), c]), ('last', [c, C(None)]), ('first-two', [C(None), C(None), c]), ('middle', [c, C(None), c])):
+            out.append((f'coalesce-null-{pos}:{cname}', select([(F('coalesce', *args), 'r')], from_='h'), [cname]))
         out.append((f'first-last:{cname}', select([(F('first', c), 'f'), (F('last', c), 'l'), (F('count', c), 'n')], from_='h'), [cname]))
     return out
 
